@@ -118,8 +118,30 @@ fn gen_case(rng: &mut Rng) -> Case {
     inst.constraints.push(c);
     // another constraint that must stay untouched
     inst.constraints.push(constraint(cid + 1, EQ_ZERO, Some(f_linear(linear(vec![(used[0], 1.0)], 0.0)))));
-    if rng.bool() {
-        inst.constraints.swap(0, 1);
+    // further untouched constraints with ids on both sides of the target, stored in any order
+    // (a message need not list constraints by ascending id; restore_constraint appends at the end)
+    if rng.chance(1, 2) {
+        let mut extra: Vec<u64> = vec![cid + 2, cid + 3, cid + 10, cid + 1000];
+        if cid >= 5 {
+            extra.extend([cid - 1, cid - 2, cid - 5]);
+        }
+        if cid >= 1 {
+            extra.push(0);
+        }
+        rng.shuffle(&mut extra);
+        let mut seen = std::collections::BTreeSet::from([cid, cid + 1]);
+        let n = 1 + rng.usize_below(4);
+        for e in extra.into_iter().filter(|e| seen.insert(*e)).take(n) {
+            let v = *rng.pick(&used);
+            let eq = if rng.bool() { EQ_ZERO } else { LE_ZERO };
+            inst.constraints.push(constraint(e, eq, Some(f_linear(linear(vec![(v, rational_coef(rng, family))], rational_const(rng, family))))));
+        }
+    }
+    match rng.below(4) {
+        0 => {}
+        1 => inst.constraints.sort_by_key(|c| c.id),
+        2 => inst.constraints.sort_by_key(|c| std::cmp::Reverse(c.id)),
+        _ => rng.shuffle(&mut inst.constraints),
     }
     inst.objective = Some(f_const(0.0));
     inst.sense = SENSE_MIN;
@@ -183,7 +205,7 @@ impl Property for C13 {
         }
     }
     fn rule(&self) -> &'static str {
-        "each case: an instance with 1-3 integer/binary variables with integer boxes inside [-4,4] (ids small or sparse), an inequality f(x)<=0 of degree <= 2 whose coefficients are integers or p/q from one denominator family (lcm <= 42), a second untouched constraint; even cases call convert_inequality_to_equality_with_integer_slack(id, max) (max huge, or 0..3 in one of six cases), odd cases add_integer_slack_to_inequality(id, ub in 1..6); one case in four is a rejection scenario (unknown constraint id, an equality constraint, a continuous variable used). Every lattice point of the box is enumerated: f(x)<=0 (SDK rule: < 1e-6) must hold iff some integer slack value in the introduced bound satisfies the new constraint (exact rational evaluation of the returned f64 coefficients; only the three slack values nearest to -a*f(x) can qualify since others are >= 1/42 away). Relaxed => every point satisfies it; InfeasibleDetected => no point does; rejections leave the instance equal. Non-trivial = a non-constant inequality; distinct = fingerprint of (instance, method, argument)."
+        "each case: an instance with 1-3 integer/binary variables with integer boxes inside [-4,4] (ids small or sparse), an inequality f(x)<=0 of degree <= 2 whose coefficients are integers or p/q from one denominator family (lcm <= 42), a second untouched constraint and in half the cases 1-4 more with ids on both sides of the target, the list stored ascending, descending or shuffled, one case in eight after a relax->restore history; even cases call convert_inequality_to_equality_with_integer_slack(id, max) (max huge, or 0..3 in one of six cases), odd cases add_integer_slack_to_inequality(id, ub in 1..6); one case in four is a rejection scenario (unknown constraint id, an equality constraint, a continuous variable used). Every lattice point of the box is enumerated: f(x)<=0 (SDK rule: < 1e-6) must hold iff some integer slack value in the introduced bound satisfies the new constraint (exact rational evaluation of the returned f64 coefficients; only the three slack values nearest to -a*f(x) can qualify since others are >= 1/42 away). Relaxed => every point satisfies it; InfeasibleDetected => no point does; rejections leave the instance equal. Non-trivial = a non-constant inequality; distinct = fingerprint of (instance, method, argument)."
     }
     fn assumptions(&self) -> Vec<&'static str> {
         vec![
@@ -193,7 +215,21 @@ impl Property for C13 {
     }
 
     fn run_case(&self, k: u64, rng: &mut Rng, _env: &Env, mon: &mut Monitor) {
-        let case = gen_case(rng);
+        let mut case = gen_case(rng);
+        // one case in eight has a relax -> restore history on some constraint before the call
+        // (restore_constraint appends, so the stored order changes the way real use changes it)
+        if rng.chance(1, 8) {
+            let victim = rng.pick(&case.inst.constraints).id;
+            let start = case.inst.clone();
+            if let Ok(Some(i)) = probe(move || {
+                let mut i = start;
+                let ok = i.relax_constraint(victim, "history".into(), Default::default()).is_ok() && i.restore_constraint(victim).is_ok();
+                ok.then_some(i)
+            }) {
+                case.inst = i;
+                mon.facet("history:relax-then-restore-before-the-call");
+            }
+        }
         let convert = k % 2 == 0;
         let method = if convert { "convert" } else { "add_slack" };
         let small_max = convert && rng.chance(1, 6);
@@ -286,9 +322,10 @@ impl Property for C13 {
                 let c_after = after.constraints.iter().find(|c| c.id == case.cid);
                 let relaxed = after.removed_constraints.iter().find(|r| r.constraint.as_ref().map_or(false, |c| c.id == case.cid));
                 // the other constraint, the variables before, the objective stay
-                let other_before = before.constraints.iter().find(|c| c.id != case.cid);
-                let other_after = after.constraints.iter().find(|c| c.id != case.cid);
-                if other_before != other_after || after.objective != before.objective || after.decision_variables.len() < before.decision_variables.len() || after.decision_variables[..before.decision_variables.len()] != before.decision_variables[..] {
+                let other_before: BTreeMap<u64, &v1::Constraint> = before.constraints.iter().filter(|c| c.id != case.cid).map(|c| (c.id, c)).collect();
+                let other_after: BTreeMap<u64, &v1::Constraint> = after.constraints.iter().filter(|c| c.id != case.cid).map(|c| (c.id, c)).collect();
+                let n_other_after = after.constraints.iter().filter(|c| c.id != case.cid).count();
+                if other_before != other_after || n_other_after != other_before.len() || after.objective != before.objective || after.decision_variables.len() < before.decision_variables.len() || after.decision_variables[..before.decision_variables.len()] != before.decision_variables[..] {
                     mon.violation(format!("C13.unrelated-parts-changed:{method}"), ctx(&after, &out));
                 }
                 match (c_after, relaxed) {
